@@ -1,7 +1,78 @@
-(* Properties_C15.v -- theorems for property C15 (placeholder until LogFormatProofs lands). *)
-From LCDB Require Import Base Crc32c LogFormat.
+(* Properties_C15.v -- C15: write-ahead-log framing is exact, standard and torn-tail tolerant.
+   Only theorem statements, each closed by [exact] of a lemma proved in
+   LogFormatProofs.v / LogFormatClosed.v / Crc32cProofs.v, with Print Assumptions. *)
+From LCDB Require Import Base Crc32c LogFormat BaseProofs Crc32cProofs LogFormatClosed.
 Local Open Scope N_scope.
 
-Theorem C15_standard_constants : BLOCK = 32768 /\ HEADER = 7 /\ T_FULL = 1 /\ T_FIRST = 2 /\ T_MIDDLE = 3 /\ T_LAST = 4.
+(* The model is pinned to the LevelDB log format constants. *)
+Theorem C15_standard_constants :
+  BLOCK = 32768 /\ HEADER = 7 /\ T_FULL = 1 /\ T_FIRST = 2 /\ T_MIDDLE = 3 /\ T_LAST = 4 /\
+  POLY = 2197175160 /\ MASK_DELTA = 2726488792.
 Proof. repeat split; reflexivity. Qed.
 Print Assumptions C15_standard_constants.
+
+(* CRC-32C: the reference value, and mask/unmask are inverse on 32-bit values. *)
+Theorem C15_crc_check_value : crc_value [49;50;51;52;53;54;55;56;57] = 3808858755.
+Proof. exact crc_check_value. Qed.
+Print Assumptions C15_crc_check_value.
+
+Theorem C15_crc_unmask_mask : forall c, c < 4294967296 -> crc_unmask (crc_mask c) = c.
+Proof. exact crc_unmask_mask. Qed.
+Print Assumptions C15_crc_unmask_mask.
+
+(* Any sequence of records of any sizes is read back identically, with no drop report. *)
+Theorem C15_roundtrip : forall rs,
+  Forall (fun r => wf_bytes r = true) rs -> read_log (write_log rs) = map Rec rs.
+Proof. exact read_write_roundtrip. Qed.
+Print Assumptions C15_roundtrip.
+
+(* ... also when the log was closed and re-opened for append at any length (log reuse):
+   the writer's only state is the file length modulo the block size. *)
+Theorem C15_append_any_offset : forall rs1 rs2,
+  write_log (rs1 ++ rs2) = write_log rs1 ++ write_log_from (nlen (write_log rs1)) rs2.
+Proof. exact write_log_app. Qed.
+Print Assumptions C15_append_any_offset.
+
+Theorem C15_roundtrip_reopen : forall rs1 rs2,
+  Forall (fun r => wf_bytes r = true) (rs1 ++ rs2) ->
+  read_log (write_log rs1 ++ write_log_from (nlen (write_log rs1)) rs2) = map Rec (rs1 ++ rs2).
+Proof. exact read_write_roundtrip_reopen. Qed.
+Print Assumptions C15_roundtrip_reopen.
+
+(* Cutting the file at ANY byte yields precisely the records wholly before the cut and no
+   error report. *)
+Theorem C15_cut : forall rs n,
+  Forall (fun r => wf_bytes r = true) rs -> (n <= length (write_log rs))%nat ->
+  exists k, read_log (firstn n (write_log rs)) = map Rec (firstn k rs) /\
+    (length (write_log (firstn k rs)) <= n)%nat /\
+    (k < length rs -> n < length (write_log (firstn (S k) rs)))%nat.
+Proof. exact read_cut. Qed.
+Print Assumptions C15_cut.
+
+(* For ANY byte string: every record returned is a concatenation of payloads of physical
+   records whose stored CRC verified (so altered bytes cannot invent a record unless a
+   CRC-32C collision is produced). *)
+Theorem C15_alter_no_invention : forall f r, In (Rec r) (read_log f) ->
+  exists frags, r = concat frags /\ Forall (fun p => In p (verified_payloads f)) frags.
+Proof. exact read_log_no_invention_structural. Qed.
+Print Assumptions C15_alter_no_invention.
+
+Theorem C15_verified_means_crc : forall f ty p,
+  In (PRec ty p) (phys_events true f) -> is_verified_substring f ty p.
+Proof. exact phys_events_verified. Qed.
+Print Assumptions C15_verified_means_crc.
+
+(* "always reports the drop" is FALSE of the faithful model (finding F3): a one-bit
+   alteration loses every record without any report. *)
+Theorem C15_alter_always_reported_refuted : exists rs f',
+  Forall (fun r => wf_bytes r = true) rs /\ length f' = length (write_log rs) /\
+  (f' = firstn 6 (write_log rs) ++ [0] ++ skipn 7 (write_log rs) /\ nth 6 (write_log rs) 0 = 1) /\
+  records_of (read_log f') <> rs /\ drops_of (read_log f') = [].
+Proof. exact zero_header_silent_refuted. Qed.
+Print Assumptions C15_alter_always_reported_refuted.
+
+(* Out-of-fuel is unreachable in the writer model. *)
+Theorem C15_writer_fuel : forall fuel off data, off <= BLOCK ->
+  (add_record_fuel data <= fuel)%nat -> add_record_loop fuel off true data = add_record off data.
+Proof. exact add_record_fuel_ok. Qed.
+Print Assumptions C15_writer_fuel.
